@@ -368,6 +368,97 @@ def run_async_handoff(rep, facts):
     rep.floor("R5.5", "stream-parser drives inside close()", n_parse, 1)
 
 
+def run_count_used_once(rep, facts):
+    """R5.9: "no input byte ... duplicated": the number of bytes a transport read put into a parser's input buffer is handed to that
+    parser's parse() at most once. A forward may-dataflow over every body of the async layer: a local that was passed as `new_input` is
+    *spent* until it is assigned again (from the next read, or a constant); passing a spent local to parse() again -- a retry or `continue`
+    that reaches the parse call without a new assignment -- makes the parser count the same bytes twice, and it then treats whatever follows
+    them in its buffer as input it never received."""
+    rep.rule("R5.9", "a byte count is handed to Parser::parse at most once: on no path does a parse call receive a local that an earlier parse call already took and that "
+                     "was not assigned since")
+    from facts import norm
+    n_sites = 0
+    for b in facts.bodies:
+        if not (b.npath.startswith("async_io::") or b.npath.startswith("<async_io::")) or b.promoted:
+            continue
+        sites = []
+        for bi, blk in enumerate(b.blocks):
+            t = blk["t"]
+            if blk.get("cleanup") or t["k"] != "call" or "path" not in t["func"] or len(t["args"]) < 2:
+                continue
+            if norm(t["func"]["path"]) in ("parser::request::Parser::parse", "parser::stream::Parser::parse"):
+                sites.append(bi)
+        if not sites:
+            continue
+        # single-definition copies of a local stand for that local (`_t = copy read; parse(.., move _t)`)
+        defs = {}
+        for bi, blk in enumerate(b.blocks):
+            for st in blk["st"]:
+                if st["k"] == "assign" and "p" not in st["place"]:
+                    defs.setdefault(st["place"]["l"], []).append(st["rv"])
+            t = blk["t"]
+            if t["k"] == "call" and "p" not in t["dest"]:
+                defs.setdefault(t["dest"]["l"], []).append(None)
+
+        def root(l, depth=0):
+            d = defs.get(l, [])
+            if depth < 8 and len(d) == 1 and d[0] is not None and d[0]["k"] == "use":
+                pl = d[0]["op"].get("copy") or d[0]["op"].get("move")
+                if pl is not None and "p" not in pl:
+                    return root(pl["l"], depth + 1)
+            return l
+        found = {}
+
+        def transfer(bi, spent, report):
+            spent = set(spent)
+            blk = b.blocks[bi]
+            for st in blk["st"]:
+                if st["k"] == "assign" and "p" not in st["place"]:
+                    spent.discard(st["place"]["l"])
+            t = blk["t"]
+            if t["k"] == "call":
+                if bi in sites:
+                    a = t["args"][1]
+                    pl = a.get("copy") or a.get("move")
+                    if pl is not None and "p" not in pl:
+                        r = root(pl["l"])
+                        if r in spent and report:
+                            found[bi] = r
+                        spent.add(r)
+                if "p" not in t["dest"]:
+                    spent.discard(t["dest"]["l"])
+            return frozenset(spent)
+        IN = {0: frozenset()}
+        work = [0]
+        while work:
+            bi = work.pop()
+            out = transfer(bi, IN[bi], False)
+            for s_ in b.succs(bi):
+                if b.blocks[s_].get("cleanup"):
+                    continue
+                old = IN.get(s_)
+                new_ = out if old is None else (old | out)
+                if new_ != old:
+                    IN[s_] = new_
+                    work.append(s_)
+        for bi in IN:
+            transfer(bi, IN[bi], True)
+        fn = b.npath.split("::{closure")[0].split("::")[-1]
+        for bi in sites:
+            t = b.blocks[bi]["t"]
+            a = t["args"][1]
+            if "const" in a or not (a.get("copy") or a.get("move")):
+                continue
+            n_sites += 1
+            key = "%s/count-used-once" % fn
+            loc = "%s:%d" % (t["sp"]["f"], t["sp"]["l"])
+            if bi in found:
+                rep.violation("R5.9", key, "parse() can be reached again with the count `%s` it already took, without a new assignment in between: the same input bytes are counted twice" % b.local_name(found[bi]), loc)
+            else:
+                rep.ok("R5.9", key, "every path back to this parse call assigns the count anew", loc)
+    rep.floor("R5.9", "parse calls of the async layer with a non-constant count", n_sites, 3)
+
+
 def run_finished_keeps_lookahead(rep, facts):
     """R5.8: "request parser to request plus leftover ... with a full buffer of look-ahead at the hand-off": a finished request parser may be fed
     look-ahead until its buffer is full; the conversion then still yields the request and the leftover only if those calls leave the Done
@@ -393,6 +484,7 @@ def main(rep, tier):
     check.guard(rep, "R5.5", run_async_handoff, f)
     check.guard(rep, "R5.6", run_input_accounting, f)
     check.guard(rep, "R5.8", run_finished_keeps_lookahead, f)
+    check.guard(rep, "R5.9", run_count_used_once, f)
     check.guard(rep, "R5.7", lambda r_, f_: run_skip_arith(r_, f_, "R5.7", "unread records are skipped exactly whatever amount of look-ahead is buffered: no truncating cast or overflow in into_skip / SkipState::drive (R3.11)"), f)
     rep.floor("R5", "rule instances", len([i for i in rep.instances if i["status"] == "ok"]), 7)
     import check as _c
